@@ -171,6 +171,7 @@ func (w *World) getPathInProc(m *fieldmask.FieldMask, root *Ty, path string) (st
 
 var inChild bool
 var hangMemo = map[string]bool{}
+var childSpawns int
 
 // bareBackslash: is there a backslash outside a double-quoted run and after a '[' or '{'?  Only such a
 // backslash can become the token that never advances inside an index/key loop (at top level and after '.'
@@ -216,6 +217,7 @@ func (w *World) getPath(c *Case, m *fieldmask.FieldMask, root *Ty, path string) 
 			return out, pkey, false
 		}
 		hangMemo[string(js)] = false
+		childSpawns++
 		cmd := exec.Command(os.Args[0], "child")
 		cmd.Stdin = bytes.NewReader(js)
 		if _, err := cmd.Output(); err != nil {
